@@ -327,3 +327,65 @@ def measure(program, share_tables=True, gran="LINE"):
     sim = Sim(program, {i: 0 for i in range(len(program))}, dec, share_tables=share_tables, gran=gran)
     sim.run()
     return sim.op_len, sim
+
+
+BIG_Q = 1 << 30
+
+
+def coalesce(trace):
+    out = []
+    for a, q in trace:
+        if out and out[-1][0] == a:
+            out[-1][1] = min(BIG_Q, out[-1][1] + q)
+        else:
+            out.append([a, q])
+    return out
+
+
+def preemptions(trace):
+    """Decisions that take the baton away from an actor before it blocks or finishes."""
+    return sum(1 for a, q in trace if q < BIG_Q)
+
+
+def minimise_trace(fails, trace, budget=400):
+    """Greedy schedule minimisation while the same violation still reproduces: (1) shortest failing prefix of the
+    decision list (after it, actors run to completion in index order), (2) delete single decisions from the back,
+    (3) turn pre-emptive quanta into 'run until you block or finish', (4) shortest prefix again."""
+    cur = coalesce(trace)
+    if not fails(cur):
+        return trace, False
+    trials = [0]
+
+    def shortest_prefix(cur):
+        lo, hi = 0, len(cur)
+        while lo < hi and trials[0] < budget:
+            mid = (lo + hi) // 2
+            trials[0] += 1
+            if fails(cur[:mid]):
+                hi = mid
+            else:
+                lo = mid + 1
+        return cur[:hi] if fails(cur[:hi]) else cur
+
+    cur = shortest_prefix(cur)
+    i = len(cur) - 1
+    while i >= 0 and trials[0] < budget:
+        cand = coalesce(cur[:i] + cur[i + 1:])
+        trials[0] += 1
+        if fails(cand):
+            cur = cand
+            i = min(i, len(cur)) - 1
+        else:
+            i -= 1
+    i = 0
+    while i < len(cur) and trials[0] < budget:
+        a, q = cur[i]
+        if q < BIG_Q:
+            cand = coalesce(cur[:i] + [[a, BIG_Q]] + cur[i + 1:])
+            trials[0] += 1
+            if fails(cand):
+                cur = cand
+                continue
+        i += 1
+    cur = shortest_prefix(cur)
+    return cur, True
